@@ -29,7 +29,10 @@ CONSTANTS MaxN,        \* instances 1..n, n \in NSet
           MaxZ,        \* at most this many zones (zone-aware mode)
           Modes,       \* subset of {"default", "zone"}
           MinHedge,    \* subset of 0..3: bit 0 = MinimizeRequests, bit 1 = HedgingDelay > 0
-          Terminals,   \* subset of BOOLEAN : IsTerminalError # nil
+          Preds,       \* subset of {"nil","never","class","all","nottransient"}: shape of cfg.IsTerminalError
+                       \*   nil: no predicate; never: always false; class: true for the "term" error class;
+                       \*   all: true for every argument (nil included); nottransient: false only for the
+                       \*   ordinary ("err") error class (so true for nil, "term" and context errors)
           NoCancels    \* subset of BOOLEAN : TRUE = ...WithoutSuccessfulContextCancellation called directly,
                        \* FALSE = DoUntilQuorum (differs only in CtxView, so {TRUE} suffices for model checking)
 
@@ -49,6 +52,7 @@ VARIABLES
   ret,              \* what the call returned
   cleaned,          \* cleaned[i] = number of cleanupFunc invocations with i's result
   tickPending,      \* the hedging ticker's channel holds a tick
+  phase,            \* bubble clock in half hedging delays since the call started, modulo 2
   \* history variables (used by properties only)
   calls,            \* calls[i] = number of invocations of f for i
   errRecv,          \* instances whose error the main loop received
@@ -56,7 +60,7 @@ VARIABLES
   nTick             \* hedging ticks consumed by the main loop
 
 vars == <<cfg, st, outcome, ctx, parentCancelled, chan, numSucc, numErr, waiting, failures, pending,
-          resultsMap, remaining, mainPc, ret, cleaned, tickPending, calls, errRecv, termRecv, nTick>>
+          resultsMap, remaining, mainPc, ret, cleaned, tickPending, phase, calls, errRecv, termRecv, nTick>>
 
 -----------------------------------------------------------------------------
 Inst     == 1..cfg.n
@@ -80,9 +84,9 @@ NZ(n, f) == Cardinality({f[i] : i \in 1..n})
 
 CfgsFor(n, m, f) ==
   {[n |-> n, zone |-> f, nz |-> NZ(n, f), mode |-> m, tol |-> t, minimize |-> (mh % 2 = 1),
-    hedge |-> (mh \div 2 = 1), terminal |-> te, nocancel |-> nc] :
+    hedge |-> (mh \div 2 = 1), pred |-> te, nocancel |-> nc] :
       t \in 0..(IF m = "zone" THEN NZ(n, f) ELSE n),
-      mh \in MinHedge, te \in Terminals, nc \in NoCancels}
+      mh \in MinHedge, te \in Preds, nc \in NoCancels}
 ZoneChoices(n, m) == IF m = "zone" THEN ZoneAssigns(n) ELSE {[i \in 1..n |-> 1]}
 Cfgs == UNION {UNION {UNION {CfgsFor(n, m, f) : f \in ZoneChoices(n, m)} : m \in Modes} : n \in NSet}
 
@@ -146,7 +150,7 @@ InitCfgP(c, p) ==
      /\ mainPc = "loop"
      /\ ret = NoRet
      /\ cleaned = [i \in I |-> 0]
-     /\ tickPending = FALSE
+     /\ tickPending = FALSE /\ phase = 0
      /\ calls = [i \in I |-> 0]
      /\ errRecv = {} /\ termRecv = {} /\ nTick = 0
 
@@ -163,7 +167,7 @@ Begin(i) ==
   /\ st' = [st EXCEPT ![i] = "running"]
   /\ calls' = [calls EXCEPT ![i] = @ + 1]
   /\ UNCHANGED <<cfg, outcome, ctx, parentCancelled, chan, numSucc, numErr, waiting, failures, pending,
-                 resultsMap, remaining, mainPc, ret, cleaned, tickPending, errRecv, termRecv, nTick>>
+                 resultsMap, remaining, mainPc, ret, cleaned, tickPending, phase, errRecv, termRecv, nTick>>
 
 \* awaitStart returns an error (context done, or release channel closed): f is never invoked,
 \* an error is posted so that the drain goroutine terminates
@@ -175,10 +179,12 @@ Abort(i) ==
   /\ outcome' = [outcome EXCEPT ![i] = "abort"]
   /\ chan' = Append(chan, i)
   /\ UNCHANGED <<cfg, ctx, parentCancelled, numSucc, numErr, waiting, failures, pending, resultsMap,
-                 remaining, mainPc, ret, cleaned, tickPending, calls, errRecv, termRecv, nTick>>
+                 remaining, mainPc, ret, cleaned, tickPending, phase, calls, errRecv, termRecv, nTick>>
 
 \* environment: the invocation of f returns
-Outcomes == IF cfg.terminal THEN {"ok", "err", "term"} ELSE {"ok", "err"}
+\* "err" = ordinary (transient) error, "term" = error of the terminal class; the classes only matter
+\* to the predicates that tell them apart
+Outcomes == IF cfg.pred \in {"class", "nottransient"} THEN {"ok", "err", "term"} ELSE {"ok", "err"}
 Finish(i, o) ==
   /\ st[i] = "running"
   /\ o \in Outcomes
@@ -186,14 +192,18 @@ Finish(i, o) ==
   /\ outcome' = [outcome EXCEPT ![i] = o]
   /\ chan' = Append(chan, i)
   /\ UNCHANGED <<cfg, ctx, parentCancelled, numSucc, numErr, waiting, failures, pending, resultsMap,
-                 remaining, mainPc, ret, cleaned, tickPending, calls, errRecv, termRecv, nTick>>
+                 remaining, mainPc, ret, cleaned, tickPending, phase, calls, errRecv, termRecv, nTick>>
 
 -----------------------------------------------------------------------------
 (* environment: hedging ticker, caller's context *)
-HedgeTick ==
-  /\ cfg.hedge /\ mainPc = "loop" /\ ~tickPending
-  /\ \E i \in Inst : st[i] = "held"          \* a tick with nothing to release is unobservable
-  /\ tickPending' = TRUE
+\* The bubble clock advances by half a hedging delay.  time.Ticker fires at absolute multiples of the
+\* delay since its creation (= since the call started) whatever the loop did in between; its channel
+\* has capacity one, a tick that finds it full is dropped.
+Advance ==
+  /\ cfg.hedge /\ mainPc = "loop"
+  /\ \E i \in Inst : st[i] = "held"          \* time passing with nothing to release is unobservable
+  /\ phase' = 1 - phase
+  /\ tickPending' = (tickPending \/ phase = 1)
   /\ UNCHANGED <<cfg, st, outcome, ctx, parentCancelled, chan, numSucc, numErr, waiting, failures, pending,
                  resultsMap, remaining, mainPc, ret, cleaned, calls, errRecv, termRecv, nTick>>
 
@@ -202,7 +212,7 @@ ParentCancel ==
   /\ parentCancelled' = TRUE
   /\ ctx' = CancelIn(ctx, Inst, "parent")
   /\ UNCHANGED <<cfg, st, outcome, chan, numSucc, numErr, waiting, failures, pending, resultsMap,
-                 remaining, mainPc, ret, cleaned, tickPending, calls, errRecv, termRecv, nTick>>
+                 remaining, mainPc, ret, cleaned, tickPending, phase, calls, errRecv, termRecv, nTick>>
 
 -----------------------------------------------------------------------------
 (* main loop *)
@@ -214,21 +224,33 @@ ExitErr(cls, i, cause) ==
   /\ ret' = [kind |-> "err", set |-> {}, cls |-> cls, inst |-> i]
   /\ cleaned' = CleanAll(resultsMap)
 
+\* cfg.IsTerminalError # nil && cfg.IsTerminalError(result.err), consulted for FAILED calls only
+\* (result.err # nil).  A goroutine that never called f posts its context's cause; while the main loop
+\* still runs that can only be the caller's error (judged terminal by "all" / "nottransient") or a
+\* wrapper of a sibling's ordinary error (terminal for no predicate that let the sibling's error pass).
+IsTerminal(i) ==
+  LET o == outcome[i]
+  IN /\ o # "ok"
+     /\ CASE cfg.pred = "class" -> o = "term"
+          [] cfg.pred = "all" -> o \in {"err", "term"} \/ (o = "abort" /\ ctx[i] = "parent")
+          [] cfg.pred = "nottransient" -> o = "term" \/ (o = "abort" /\ ctx[i] = "parent")
+          [] OTHER -> FALSE
+
 \* case result := <-resultsChan
 MainRecv ==
   /\ mainPc = "loop" /\ ~Succeeded /\ chan # <<>>
-  /\ UNCHANGED <<cfg, outcome, parentCancelled, tickPending, calls, nTick>>
+  /\ UNCHANGED <<cfg, outcome, parentCancelled, tickPending, phase, calls, nTick>>
   /\ LET i == Head(chan)
          o == outcome[i]
          z == cfg.zone[i]
      IN /\ chan' = Tail(chan)
         /\ remaining' = remaining - 1
-        /\ IF o = "term" /\ cfg.terminal
+        /\ IF IsTerminal(i)
            THEN \* terminate(err, "a terminal error occurred") - before tracker.done
                 /\ st' = [st EXCEPT ![i] = "recv"]
                 /\ termRecv' = termRecv \cup {i}
                 /\ ctx' = CancelIn(ctx, Inst, "terminal")
-                /\ ExitErr("inst", i, "terminal")
+                /\ IF o = "abort" THEN ExitErr("cancelled", 0, "terminal") ELSE ExitErr("inst", i, "terminal")
                 /\ UNCHANGED <<numSucc, numErr, waiting, failures, pending, resultsMap, errRecv>>
            ELSE IF o = "ok"
            THEN \* tracker.done(instance, nil); resultsMap[instance] = result
@@ -276,14 +298,14 @@ MainTick ==
   /\ st' = ReleaseNext(st)
   /\ pending' = IF pending = <<>> THEN <<>> ELSE Tail(pending)
   /\ UNCHANGED <<cfg, outcome, ctx, parentCancelled, chan, numSucc, numErr, waiting, failures,
-                 resultsMap, remaining, mainPc, ret, cleaned, calls, errRecv, termRecv>>
+                 resultsMap, remaining, mainPc, ret, cleaned, phase, calls, errRecv, termRecv>>
 
 \* case <-ctx.Done(): cleanupResultsAlreadyReceived(); return nil, context.Cause(ctx)
 MainCtxDone ==
   /\ mainPc = "loop" /\ ~Succeeded /\ parentCancelled
   /\ ExitErr("cancelled", 0, "parent")
   /\ UNCHANGED <<cfg, st, outcome, ctx, parentCancelled, chan, numSucc, numErr, waiting, failures, pending,
-                 resultsMap, remaining, tickPending, calls, errRecv, termRecv, nTick>>
+                 resultsMap, remaining, tickPending, phase, calls, errRecv, termRecv, nTick>>
 
 \* loop condition false: build the result slice, clean and cancel what is not included
 \* (plain DoUntilQuorum then cancels its derived context: see CtxView)
@@ -296,7 +318,7 @@ ReturnOK ==
         /\ ctx' = c1
   /\ mainPc' = "returned"
   /\ UNCHANGED <<cfg, st, outcome, parentCancelled, chan, numSucc, numErr, waiting, failures, pending,
-                 resultsMap, remaining, tickPending, calls, errRecv, termRecv, nTick>>
+                 resultsMap, remaining, tickPending, phase, calls, errRecv, termRecv, nTick>>
 
 \* deferred goroutine: for resultsRemaining > 0 { r := <-resultsChan; if r.err == nil { cleanupFunc(r.result) } }
 Drain ==
@@ -307,11 +329,11 @@ Drain ==
         /\ st' = [st EXCEPT ![i] = "recv"]
         /\ cleaned' = IF outcome[i] = "ok" THEN [cleaned EXCEPT ![i] = @ + 1] ELSE cleaned
   /\ UNCHANGED <<cfg, outcome, ctx, parentCancelled, numSucc, numErr, waiting, failures, pending,
-                 resultsMap, mainPc, ret, tickPending, calls, errRecv, termRecv, nTick>>
+                 resultsMap, mainPc, ret, tickPending, phase, calls, errRecv, termRecv, nTick>>
 
 -----------------------------------------------------------------------------
 EnvNext == \/ \E i \in Inst : \E o \in {"ok", "err", "term"} : Finish(i, o)
-           \/ HedgeTick
+           \/ Advance
            \/ ParentCancel
 MainNext == MainRecv \/ MainTick \/ MainCtxDone \/ ReturnOK
 IntNext == \/ \E i \in Inst : Begin(i) \/ Abort(i)
@@ -350,7 +372,8 @@ TypeOK ==
   /\ st \in [Inst -> States]
   /\ outcome \in [Inst -> {"none", "ok", "err", "term", "abort"}]
   /\ ctx \in [Inst -> Causes]
-  /\ parentCancelled \in BOOLEAN /\ tickPending \in BOOLEAN
+  /\ parentCancelled \in BOOLEAN /\ tickPending \in BOOLEAN /\ phase \in {0, 1}
+  /\ cfg.pred \in Preds
   /\ \A a \in 1..Len(chan) : chan[a] \in Inst /\ st[chan[a]] = "posted"
   /\ Cardinality(SeqRange(chan)) = Len(chan)
   /\ remaining = Cardinality({i \in Inst : st[i] # "recv"})
@@ -387,7 +410,8 @@ ErrWhenExceeded ==
   /\ mainPc = "loop" => ~ExceededH /\ termRecv = {}
   /\ ret.kind = "ok" => ~ExceededH /\ termRecv = {}
   /\ ret.kind = "err" =>
-       \/ ret.cls = "inst" /\ ret.inst \in termRecv /\ outcome[ret.inst] = "term" /\ cfg.terminal
+       \/ ret.cls = "inst" /\ ret.inst \in termRecv /\ outcome[ret.inst] \in {"err", "term"}
+            /\ cfg.pred \in {"class", "all", "nottransient"}
        \/ ret.cls = "inst" /\ ret.inst \in errRecv /\ ExceededH /\ termRecv = {}
        \/ ret.cls = "cancelled" /\ parentCancelled
 
